@@ -10,7 +10,11 @@ package gohbase
 import (
 	"context"
 	"io"
+	"log/slog"
+	"net"
 	"time"
+
+	"github.com/tsuna/gohbase/compression"
 
 	"github.com/tsuna/gohbase/hrpc"
 	"github.com/tsuna/gohbase/region"
@@ -136,4 +140,21 @@ func VerifSleepAndIncreaseBackoff(ctx context.Context,
 // VerifFullyQualifiedTable exports fullyQualifiedTable.
 func VerifFullyQualifiedTable(reg hrpc.RegionInfo) []byte {
 	return fullyQualifiedTable(reg)
+}
+
+// VerifOnNewRegionClient makes f run right before every construction of a
+// region client, at the place where the constructor runs (inside the
+// connection cache's put). To be called before the client is used.
+func VerifOnNewRegionClient(cl Client, f func(addr string)) {
+	c := cl.(*client)
+	orig := c.newRegionClientFn
+	c.newRegionClientFn = func(addr string, ctype region.ClientType, queueSize int,
+		flushInterval time.Duration, effectiveUser string, readTimeout time.Duration,
+		codec compression.Codec,
+		dialer func(ctx context.Context, network, addr string) (net.Conn, error),
+		logger *slog.Logger) hrpc.RegionClient {
+		f(addr)
+		return orig(addr, ctype, queueSize, flushInterval, effectiveUser, readTimeout,
+			codec, dialer, logger)
+	}
 }
